@@ -71,3 +71,14 @@ Fixpoint static_blocks (start n t : nat) {struct t} : list (list nat) :=
             seq start q :: static_blocks (start + q) (n - q) t'
   end.
 Definition sched_static (n t : nat) : list (list nat) := static_blocks 0 n t.
+
+(* the iterations that start from the fresh scratch: the first one of every thread *)
+Definition first_of_thread (sched : list (list nat)) : list nat :=
+  flat_map (fun l => match l with [] => [] | x :: _ => [x] end) sched.
+Definition nat_list_eqb (a b : list nat) : bool :=
+  Nat.eqb (length a) (length b) && forallb (fun p => Nat.eqb (fst p) (snd p)) (combine a b).
+(* observed set of "fresh" iterations is what a static schedule with some thread count 1..tmax predicts *)
+Definition static_fresh_matches (n tmax : nat) (obs : list nat) : bool :=
+  existsb (fun t => nat_list_eqb obs (first_of_thread (sched_static n t))) (seq 1 tmax).
+Definition static_fresh_exact (n t : nat) (obs : list nat) : bool :=
+  nat_list_eqb obs (first_of_thread (sched_static n t)).
